@@ -6,7 +6,7 @@ from typing import Any, Dict
 from .. import gen, hta
 from ..core import Prop
 from .c04 import breakdown_cfg
-from .common import case_from_cfg, frame_rows, write_and_load
+from .common import case_from_cfg, draw_prefix, frame_rows, write_and_load
 
 
 class C05(Prop):
@@ -33,6 +33,7 @@ class C05(Prop):
                 case["numK"] = rng.choice([1, 1, 2, 3, 10])
                 case["ratio"] = rng.choice([0.1, 0.5, 0.8, 1.0])
                 case["incMem"] = rng.random() < 0.5
+                case["prefix"] = draw_prefix(rng)
                 return case
         raise RuntimeError("no device activities")
 
